@@ -220,7 +220,24 @@ def roundtrip(mon: Mon, ctx, rng, tp):
     elif key_form == "callable":
         ek, dk = (lambda obj, k=ek: k), (lambda obj, k=dk: k)
     header_before = copy.deepcopy(header)
-    o = call(j.jwt.encode, header, enc_claims, ek, **kw)
+    enc_kw = {}
+    if rng.random() < 0.25:
+        # a caller's own JSON encoder (for a type json does not know): exp / nbf / iat given as datetime still become NumericDate seconds
+        import uuid
+
+        class CallerEncoder(json.JSONEncoder):
+            def default(self, o):
+                if isinstance(o, uuid.UUID):
+                    return "uuid:" + o.hex
+                if isinstance(o, (set, frozenset)):
+                    return sorted(o)
+                return super().default(o)
+        u = uuid.UUID(int=rng.getrandbits(128))
+        enc_claims = {**enc_claims, "jti-uuid": u, "scopes": {"b", "a"}}
+        expect = {**expect, "jti-uuid": "uuid:" + u.hex, "scopes": ["a", "b"]}
+        enc_kw = {"encoder_cls": CallerEncoder}
+        ctx.count("roundtrips_with_caller_encoder")
+    o = call(j.jwt.encode, header, enc_claims, ek, **kw, **enc_kw)
     ctx.cell(tp["kind"], tp["alg"], key_form)
     case = {"claims": expect, "header": header_before, "transport": {k: v for k, v in tp.items()}, "key_form": key_form}
     if not o.ok:
@@ -285,6 +302,10 @@ HOSTILE = [
     ("false", b"false"), ("empty", b""), ("space", b" "), ("text", b"hello"), ("non-utf8", b"\xff\xfe{}"), ("truncated", b'{"a":1'),
     ("trailing-garbage", b'{"a":1}x'), ("two-values", b'{"a":1}{"b":2}'), ("array-of-objects", b'[{"a":1}]'), ("nested-array", b"[[[[]]]]"),
 ("single-quotes", b"{'a':1}"), ("number-string", b'"12"'), ("neg", b"-1"), ("big", b"1e400"),
+    # a JSON object with octets around it that are not JSON white space (bytes.strip() and str.strip() take more than JSON allows)
+    ("vt-after", b'{"a":1}\x0b'), ("ff-after", b'{"a":1}\x0c'), ("ff-before", b'\x0c{"a":1}'), ("fs-after", b'{"a":1}\x1c'), ("us-before", b'\x1f{"a":1}'),
+    ("nul-after", b'{"a":1}\x00'), ("nbsp-after", b'{"a":1}\xc2\xa0'), ("nel-after", b'{"a":1}\xc2\x85'), ("zwsp-before", b'\xe2\x80\x8b{"a":1}'),
+    ("ideographic-space-after", b'{"a":1}\xe3\x80\x80'), ("ls-after", b'{"a":1}\xe2\x80\xa8'),
     # octets that are not text in the encoding json.loads detects (UnicodeDecodeError inside the parser)
     ("bad-utf8-in-string", b'{"a":"\xff"}'), ("lone-continuation", b"\x80"), ("bad-utf8-in-name", b'{"\xc3":1}'),
     ("utf16-odd-length", b"\xfe\xff\x00{\x00"), ("utf32-truncated", b"\x00\x00\xfe\xff\x00\x00\x00"), ("utf16-lone-surrogate", b"\xff\xfe\x00\xd8"),
